@@ -27,6 +27,12 @@ func c30Gen(t *rapid.T) c30Case {
 	c.Opts["writeBison"] = "true"
 	delete(c.Opts, "genParser")
 	c.Names = nil
+	if len(c.G.Inputs) == 1 && rapid.IntRange(0, 2).Draw(t, "lastIsInput") == 0 {
+		// the only input is the last nonterminal of the file (the .y file must keep the rule order
+		// of the tables, whatever Bison would take as the start symbol)
+		c.G.NTs = append(c.G.NTs, &egNT{Name: "Zstart", Alts: []*egAlt{{Parts: []*egPart{{K: "n", Sym: c.G.Inputs[0].NT}}}}})
+		c.G.Inputs = []egInput{{NT: len(c.G.NTs) - 1, Eoi: c.G.Inputs[0].Eoi}}
+	}
 	var cc c30Case
 	cc.C17 = c
 	if rapid.IntRange(0, 1).Draw(t, "withPrec") == 0 {
@@ -311,7 +317,7 @@ func c30OnGenerated(c c30Case, res *batch.Result, r *ev.Recorder) *Failure {
 func TestC30(t *testing.T) {
 	p := &batchProp[c30Case]{
 		ID:          "C30",
-		Rule:        "C17's grammar and option generator with writeBison = true, plus 0..3 %left/%right/%nonassoc groups and %prec markers on a quarter of the unannotated alternatives (a terminal of a group, the rule's first terminal, or - one in four - any terminal, also one without a precedence level); compiled and generated in process (no build). The exported <name>.y is parsed (sections, %start, precedence lines, %token, `lhs :` blocks, `/*.marker*/` comments, %prec, %empty, action blocks skipped) and compared with grammar.Parser.Rules grouped by left-hand side in first-occurrence order (terminals by ID, nonterminals by name, markers ignored), Parser.Prec in order, the %token list (terminals without precedence, except eoi) and Parser.Inputs. Non-trivial: >=4 productions; distinct by grammar text.",
+		Rule:        "C17's grammar and option generator with writeBison = true (a third of the single-input cases: the only input is a nonterminal `Zstart` appended at the end of the file), plus 0..3 %left/%right/%nonassoc groups and %prec markers on a quarter of the unannotated alternatives (a terminal of a group, the rule's first terminal, or - one in four - any terminal, also one without a precedence level); compiled and generated in process (no build). The exported <name>.y is parsed (sections, %start, precedence lines, %token, `lhs :` blocks, `/*.marker*/` comments, %prec, %empty, action blocks skipped) and compared with grammar.Parser.Rules grouped by left-hand side in first-occurrence order (terminals by ID, nonterminals by name, markers ignored), Parser.Prec in order, the %token list (terminals without precedence, except eoi) and Parser.Inputs. Non-trivial: >=4 productions; distinct by grammar text.",
 		Quick:       3000, Thorough: 120000, BatchSize: 200,
 		Gen:         c30Gen,
 		Unit:        func(c c30Case, name string) (batch.Unit, bool) { return batch.Unit{Name: name, TM: c.render(name)}, true },
